@@ -1,5 +1,7 @@
 // C06 object: four variables (released by destruct2), call_out / add_action callbacks that capture values.
 // variable order matters to the harness: x0..x3 are variables 0..3
+inherit "/c06/base";      // program_t.ref of the base program: its blueprint + the inherit table of this program
+
 mixed x0, x1, x2, x3;
 
 void set_oid (string s) { }
